@@ -3302,6 +3302,10 @@ The what argument tells us what sort of state is expected (allowed values are de
 
         topProduct = productName
         topVersion = versionName
+        if checkRecursive and len(self._findDeclarations(productName, versionName)) > 1:
+            # the same version is also declared in another stack or for a fall-back flavor; that declaration
+            # stays, and it goes on needing its dependencies, so don't set the product aside as a user
+            topProduct = topVersion = None
         #
         # Figure out what to remove
         #
@@ -3417,6 +3421,14 @@ The what argument tells us what sort of state is expected (allowed values are de
 
         return productsToRemove
 
+    def _findDeclarations(self, productName=None, versionName=None):
+        """Return every declaration of the products on self.path (for self.flavor and its fall-back flavors);
+        unlike findProducts() a version that is declared in more than one stack is listed once per stack"""
+        productList = []
+        for d in self.path:
+            productList += self.findProducts(productName, versionName, eupsPathDirs=[d])
+        return productList
+
     def uses(self, productName=None, versionName=None, depth=9999, usesInfo=None):
         """Return a list of all products which depend on the specified product in the form of a list of tuples
         (productName, productVersion, (versionNeeded, optional, tags))
@@ -3436,8 +3448,9 @@ The what argument tells us what sort of state is expected (allowed values are de
         old_exact_version = self.exact_version
         self.exact_version = True       # we want to know exactly which versions were specified
 
-        # start with every known product
-        productList = self.findProducts()
+        # start with every known product; findProducts() lists a version once even if it's declared in
+        # more than one stack, but each declaration has a table file of its own
+        productList = self._findDeclarations()
 
         if not productList:
             return []
@@ -3454,7 +3467,10 @@ The what argument tells us what sort of state is expected (allowed values are de
                     continue
 
                 for dep_product, dep_optional, dep_depth in deps:
-                    assert not (pi.name == dep_product.name and pi.version == dep_product.version)
+                    if pi.name == dep_product.name and pi.version == dep_product.version:
+                        # another declaration of this very version (a fall-back flavor's) reached through a
+                        # cycle; the table of users goes by name and version, and a product doesn't use itself
+                        continue
 
                     usesInfo.remember(pi.name, pi.version, (dep_product.name, dep_product.version,
                                                             dep_optional, dep_depth))
